@@ -182,6 +182,9 @@ func (x *runner) valueCase(v cty.Value) {
 	if firstKeyFor(v) {
 		rep.Hist("value:first-key-for")
 	}
+	if hasBomKey(v) {
+		rep.Hist("value:key-leading-bom")
+	}
 	vd, src := valueOracle(v)
 	if vd.kind == "" {
 		rep.Hist("oracle-ok:value")
@@ -436,6 +439,7 @@ var handStrings = []string{
 
 var handKeysets = [][]string{
 	{"for"}, {"for", "if"}, {"a", "for"}, {"for", "zz"}, {"if"}, {"null"}, {"true"}, {"false"}, {"in"},
+	{"\ufeffbom"}, {"a", "\ufeffbom"}, {"\ufefffor"}, {"\ufeff"},
 	{""}, {"a b"}, {"1a"}, {"ünï"}, {"名前"}, {"a-b"}, {"-a"}, {"${"}, {"a$b"}, {"\""}, {"\n"}, {"for "}, {"FOR"}, {"fo", "for"},
 }
 
